@@ -950,6 +950,25 @@ func (m *Model) evalForeach(s *Step) {
 	done(Dead)
 }
 
+// EagerFaults reports whether evaluating any step expression whose sources were produced fails,
+// also for steps that never get as far as using the value (disabled, stuck, failed earlier): the
+// engine resolves a stage's input as soon as its dependencies are there and ends the run with an
+// error when that evaluation fails.
+func (m *Model) EagerFaults() bool {
+	n := len(m.Faults)
+	for _, s := range m.Prog.Steps {
+		for _, v := range []*Val{s.Input, s.WaitFor, s.DeployTag, s.Enabled, s.StopIf, s.ClosureTimeoutMs, s.Items, s.Parallelism} {
+			if v == nil || m.valStatus(v) != Produced {
+				continue
+			}
+			if _, f := m.evalVal(v, true, "steps."+s.ID); f != nil {
+				return true
+			}
+		}
+	}
+	return len(m.Faults) > n
+}
+
 // truthy interprets a value the way the SDK's bool schema unserialises it (literal spellings).
 func truthy(v any) bool {
 	switch x := v.(type) {
